@@ -1,5 +1,5 @@
 (* C18 — proofs about Model/CmdHandler.v against Spec/CmdSpec.v. *)
-Require Import Bytes Utf8 Names GoLower Ctcp CmdHandler CmdSpec FormatLemmas NamesProofs.
+Require Import Bytes Utf8 Names GoLower Ctcp WireOut CmdHandler CmdSpec FormatLemmas NamesProofs.
 From Coq Require Import Lia ZifyBool ZifyN ZifyNat.
 
 (* ---- the name class --------------------------------------------------- *)
@@ -726,6 +726,86 @@ Lemma reply_route_private e src :
 Proof.
   intros H. unfold reply_route. destruct (ev_params e) as [|p0 ps]; [reflexivity|].
   now rewrite (H p0 ps eq_refl).
+Qed.
+
+(* ---- lower-casing, as far as ASCII goes ---------------------------------- *)
+
+Lemma lower_ascii_img_ascii s : is_ascii s = true -> lower_ascii_img s = Some (to_lower_ascii s).
+Proof.
+  unfold is_ascii, to_lower_ascii. induction s as [|b s IH]; [reflexivity|].
+  cbn [forallb map lower_ascii_img]. intros H. apply andb_true_iff in H as [Hb Hs].
+  rewrite Hb, (IH Hs). reflexivity.
+Qed.
+
+(* ---- the usage reply on the wire (ASCII case) ----------------------------- *)
+
+Lemma to_valid_aux_ascii repl s : forall inrun,
+  is_ascii s = true -> to_valid_aux repl s 0 inrun = s.
+Proof.
+  unfold is_ascii. induction s as [|b s IH]; intros inrun H; [reflexivity|].
+  cbn [forallb] in H. apply andb_true_iff in H as [Hb Hs].
+  cbn [to_valid_aux]. unfold rune_size. rewrite Hb. cbn [Nat.sub]. now rewrite IH.
+Qed.
+
+Lemma strip_crlf_clean s : ~ In 10 s -> ~ In 13 s -> strip_crlf s = s.
+Proof.
+  unfold strip_crlf. induction s as [|b s IH]; intros H10 H13; [reflexivity|].
+  cbn [filter]. assert (b <> 10 /\ b <> 13) as [Hb1 Hb2].
+  { split; intros ->; [apply H10 | apply H13]; now left. }
+  assert (E : negb ((b =? 10) || (b =? 13)) = true) by lia. rewrite E, IH; auto.
+  - intros Hi; apply H10; now right.
+  - intros Hi; apply H13; now right.
+Qed.
+
+Lemma clean_app a b : clean a -> clean b -> clean (a ++ b).
+Proof.
+  unfold clean, is_ascii. intros (A1 & A2 & A3) (B1 & B2 & B3). rewrite forallb_app, A1, B1.
+  repeat split; auto; intros Hi; apply in_app_or in Hi as [Hi|Hi]; auto.
+Qed.
+
+Lemma clean_by_computation s :
+  is_ascii s && negb (memb 10 s) && negb (memb 13 s) = true -> clean s.
+Proof.
+  intros H. apply andb_true_iff in H as [H H3]. apply andb_true_iff in H as [H1 H2].
+  apply negb_true_iff, memb_false_iff in H2, H3. now repeat split.
+Qed.
+
+Lemma wire2_clean command p0 p1 :
+  clean command -> clean p0 -> clean p1 ->
+  wire2 command p0 p1 =
+  command ++ [32] ++ p0 ++ [32] ++ (if needs_colon p1 then [58] else []) ++ p1.
+Proof.
+  intros Hc H0 H1. unfold wire2, to_valid_utf8.
+  assert (Hall : clean (command ++ [32] ++ p0 ++ [32] ++ (if needs_colon p1 then [58] else []) ++ p1)).
+  { repeat apply clean_app; auto; try (apply clean_by_computation; reflexivity).
+    destruct (needs_colon p1); apply clean_by_computation; reflexivity. }
+  destruct Hall as (A & B & C). rewrite to_valid_aux_ascii; auto. now apply strip_crlf_clean.
+Qed.
+
+Lemma name_ok_clean n : name_ok n -> clean n.
+Proof.
+  intros (_ & _ & Hn). unfold clean, is_ascii. rewrite forallb_forall. rewrite Forall_forall in Hn.
+  repeat split.
+  - intros b Hb. apply Hn in Hb. unfold name_char in Hb. lia.
+  - intros Hi. apply Hn in Hi. unfold name_char in Hi. lia.
+  - intros Hi. apply Hn in Hi. unfold name_char in Hi. lia.
+Qed.
+
+(* what is written for the usage reply when prefix, sender and target are plain ASCII
+   without CR/LF: one line, the text behind a colon *)
+Lemma usage_reply_wire prefix n target lead :
+  clean prefix -> clean target -> clean lead -> name_ok n ->
+  wire2 PRIVMSG target (lead ++ usage_text prefix n) =
+  PRIVMSG ++ [32] ++ target ++ [32; 58] ++ lead ++ usage_text prefix n.
+Proof.
+  intros Hp Ht Hl Hn. apply name_ok_clean in Hn.
+  assert (Hu : clean (lead ++ usage_text prefix n)).
+  { unfold usage_text. repeat apply clean_app; auto; apply clean_by_computation; reflexivity. }
+  rewrite wire2_clean; auto; [|apply clean_by_computation; reflexivity].
+  assert (Hc : needs_colon (lead ++ usage_text prefix n) = true).
+  { unfold needs_colon. apply orb_true_iff. left. apply memb_In. apply in_or_app. right.
+    unfold usage_text. apply in_or_app. left. vm_compute. tauto. }
+  rewrite Hc. reflexivity.
 Qed.
 
 (* ---- the U+FFFD prefix (repaired in cd20b6b: it used to match any invalid byte) ---- *)
